@@ -317,3 +317,27 @@ check(
         technique="differential testing of two builds on identical rapid-generated inputs + reference codec",
     ),
 )
+
+check(
+    "C18", "result blocks bind only to compatible targets", "exploration",
+    rule=("rapid draws (block schema, target list) pairs by construction in 12 labelled classes (identical, permuted, renamed, "
+          "extra/missing column, blank target names then enforcement, type replaced by a type of a different base, "
+          "FixedString(N != M), zero-row header blocks with and without targets, custom-serialization flag set, sequences of "
+          "2-4 blocks with changing schema against the same targets) over 2-4 catalog columns of pairwise different base "
+          "types carrying distinct data, plus 9 classes for inferable targets and documented equivalences (ColEnum adopting "
+          "the server's definition, alone and inside Array/Map; DateTime adopting the zone; DateTime64 adopting the precision, "
+          "alone and in Array; Enum vs Int; Decimal(P,S) vs DecimalN). Blocks come from the reference encoder. The expected "
+          "outcome follows from the class. Distinct = hash of (class, schema, data). Non-trivial = any class but identical."),
+    quick=[unit("codec", "^TestC18", checks=6000, timeout=900)],
+    thorough=[unit("codec", "^TestC18", checks=60000, timeout=6000, shards=16)],
+    manifest=dict(
+        text="Class-labelled generated pairs with outcome oracles independent of Conflicts: on success every target holds "
+             "exactly its own column's values (a mis-bind is visible because columns carry distinct data), names are filled and "
+             "enforced, inferable targets report and use the server's parameters; on failure the error names the mismatch and "
+             "every target is empty, holds its own column, or is untouched.",
+        design_ref="DESIGN.md 4 C18",
+        note="Only classes with an unambiguous expected outcome are generated (grey areas of Conflicts such as Map with "
+             "differing inner parameters are not asserted). Nullable is not among the statement's inferring wrappers.",
+        technique="class-labelled property-based testing (rapid) with reference-encoded blocks",
+    ),
+)
